@@ -242,6 +242,10 @@ def aggregate(pid, tier, seed, results, stage_info, wall, rule, level, replay_mo
         lines.append("VIOLATION property=%s replay=%s key=%s what=%s"
                      % (pid, rel, key, str(v.get("what", ""))[:300]))
     distinct = len(ev["distinct"]) + ev.get("distinct_count", 0)
+    if not ev["samples"] and ev["evaluations"] > 0:
+        # a driver whose own sampling condition happened never to fire: the evidence still says what was observed
+        ev["samples"].append({"note": "the driver recorded no example case in this run", "evaluations": ev["evaluations"],
+                              "first_distinct_classes": sorted(ev["distinct"])[:5]})
     coverage = {
         "evaluations": ev["evaluations"],
         "distinct_nontrivial": distinct,
